@@ -20,7 +20,7 @@ import (
 // Buckets / keys used by generated contract programs.
 var (
 	Buckets  = []string{"vb0", "vb1"}
-	KeyNames = []string{"a", "b", "c", "d", "e", "f"}
+	KeyNames = []string{"a", "b", "c", "d", "e", "f", "\xffz", "a/b"} // incl. a key starting with 0xff and one containing the raw-key separator
 )
 
 // Opts bounds a generated tree.
